@@ -9,7 +9,7 @@ ID = 'C09'
 LEVEL = 'exploration'
 BUDGET = {'quick': 100, 'thorough': 900}
 RULE = ('Cases = histories of <= 7 operations from {add_worker, attach, run(inputs), run with an input fatal to every worker, restart_workers, kill a worker, make a worker '
-        'stuck in an uncooperative target, failing registration (handle_new_worker raises), failing construction (connection '
+        'stuck in an uncooperative target, KeyboardInterrupt surfacing inside a run, failing registration (handle_new_worker raises), failing construction (connection '
         'refused, spawn fails), exception in the with-body, close, terminate} x mixed pools x close_timeout {0.05, 1} x force '
         '{None, True, False} x schedule.')
 ASSUMPTIONS = ['responsive clock', 'thread workers stuck in an uncooperative target cannot be killed (excluded from the no-outliving clause)']
@@ -64,6 +64,15 @@ def gen_case(ctx, rng, i, tag='random'):
             ops.append(['add-fail-construction', rng.choice(['refused', 'spawn'])])
         else:
             ops.append(['run', inputs()])
+    if rng.random() < 0.15:
+        # Ctrl-C while a run is in progress: KeyboardInterrupt surfaces at some point of Pool.run (most often where it waits for
+        # results), with inputs handed out, results unread and workers busy; the with-block is left through it / the caller closes
+        n = rng.randrange(2, 7)
+        xs = list(range(uniq[0], uniq[0] + n))
+        uniq[0] += n + 1
+        ops.append(['run-interrupted', xs, rng.randrange(1, 40),
+                    rng.choice(['Pool.run', 'Pool.run', 'Pool.run', 'Pool.run.<locals>.try_enqueue', 'Pool.run.<locals>.handle_new_result',
+                                'Pool._get_all_queues', 'Pool.run.<locals>.next_inputs'])])
     end = rng.choice(['close', 'terminate', 'with-ok', 'with-exc'])
     pol, knobs = draw_env(rng, tcp=remote)
     knobs['max_steps'] = 800000
@@ -81,6 +90,7 @@ class Run(PoolRun):
         self.spawn_fail = {'armed': False}
         sim.knobs['_spawn_hook'] = self._spawn_hook
         self.hist = []
+        self.interrupted = False
 
     def _spawn_hook(self, sim, me, proc):
         if self.spawn_fail['armed']:
@@ -114,7 +124,7 @@ class Run(PoolRun):
             if r[0] == 'hung':
                 self.viol('close-returns', f'with-exit-hangs', s.blocked_report()[:6])
                 return
-            if r[0] == 'exc' and not isinstance(r[1], BodyError):
+            if r[0] == 'exc' and not isinstance(r[1], BodyError) and not (self.interrupted and isinstance(r[1], KeyboardInterrupt)):
                 self.viol('close-returns', f'with-exit-raises:{type(r[1]).__name__}@{tb_tail(r[1])}')
         else:
             self.do_ops(pool, host, fail_reg)
@@ -217,8 +227,23 @@ class Run(PoolRun):
                     self.viol('failed-construction', f'child-left-behind-after-failed-construction:{op[1]}', [p.name for p in leaked])
                 if len(list(pool.workers)) != nw:
                     self.viol('failed-construction', f'failed-worker-registered-in-pool:{op[1]}')
-            elif name in ('run', 'run-poison') and self.stuck:
+            elif name in ('run', 'run-poison', 'run-interrupted') and self.stuck:
                 continue      # a stuck worker never answers: the premise of run() is not met
+            elif name == 'run-interrupted':
+                def action(sim, t, code=None, line=None):
+                    sim.fault('keyboard-interrupt-in-run')
+                    t.pending_exc = KeyboardInterrupt
+                s.add_trigger(at='dp', qualname=op[3], occurrence=op[2], action=action, label='kbint', pred=lambda t: True)
+                r = lib.call_with_deadline(pool.run, 1800.0, iter(list(op[1])))
+                s.dp_triggers[:] = [tr for tr in s.dp_triggers if tr.get('label') != 'kbint']
+                if r[0] == 'hung':
+                    self.viol('run-returns', 'run-hangs', s.blocked_report()[:6])
+                    return
+                if r[0] == 'exc' and isinstance(r[1], KeyboardInterrupt):
+                    self.interrupted = True
+                    if c['end'] in ('with-ok', 'with-exc'):
+                        raise r[1]
+                    return
             elif name == 'run-poison':
                 inputs = op[1]
                 live = self.live_workers()
